@@ -762,60 +762,24 @@ func c14R5(p *core.Program, r *core.Report, fs []*core.Func) {
 			n++
 			r.Bad(rule, f, "order source in the resolver: "+os.What, os.Pos, "the answer of ResultsOf would depend on iteration/scheduling order")
 		}
-		info := f.Info()
 		for _, w := range nonLocalWrites(f) {
 			// writes into per-call values (the visited set, the list being concatenated) are fine
-			as, ok := w.(*ast.AssignStmt)
 			perCall := false
-			if ok {
-				for _, l := range as.Lhs {
-					root := l
-					for {
-						switch x := ast.Unparen(root).(type) {
-						case *ast.IndexExpr:
-							root = x.X
-							continue
-						case *ast.SelectorExpr:
-							root = x.X
-							continue
-						}
-						break
+			var lhs []ast.Expr
+			switch x := w.(type) {
+			case *ast.AssignStmt:
+				lhs = x.Lhs
+			case *ast.IncDecStmt:
+				lhs = []ast.Expr{x.X}
+			}
+			if len(lhs) > 0 {
+				perCall = true
+				for _, l := range lhs {
+					if id, isID := l.(*ast.Ident); isID && id.Name == "_" {
+						continue
 					}
-					// a local alias of a per-call value: n, ok := v[t]
-					for k := 0; k < 4; k++ {
-						lv := core.VarOf(info, root)
-						if lv == nil || isParamOf(f, lv) {
-							break
-						}
-						d, ok := core.SingleDef(info, f.Body, lv)
-						if !ok {
-							break
-						}
-						root = d.Rhs
-						for {
-							switch x := ast.Unparen(root).(type) {
-							case *ast.IndexExpr:
-								root = x.X
-								continue
-							case *ast.SelectorExpr:
-								root = x.X
-								continue
-							}
-							break
-						}
-					}
-					if v := core.VarOf(info, root); v != nil {
-						tn := core.NamedTypeName(v.Type())
-						if tn == core.G("pkg/types.visits") || tn == core.G("pkg/types.FuncResults") {
-							perCall = true
-						}
-						// captured local of the enclosing function (iterator plumbing)
-						if f.Lit != nil && !isParamOf(f, v) {
-							encl := f.Root()
-							if v.Pos() >= encl.Body.Pos() && v.Pos() < encl.Body.End() {
-								perCall = true
-							}
-						}
+					if !perCallValue(f, l, 0) {
+						perCall = false
 					}
 				}
 			}
@@ -857,4 +821,78 @@ func c14R5(p *core.Program, r *core.Report, fs []*core.Func) {
 		})
 	}
 	r.Check(uses == 0, rule, nil, "pkgInfo.funcResults cache is not used", token.NoPos, "no selector refers to the field", "the result cache field is read or written: answers may come from an earlier (differently cut) resolution")
+}
+
+// perCallValue: the memory written through e belongs to this call: a value of
+// the per-call types (visits, FuncResults), a fresh local, or a local all of
+// whose definitions are such values (aliases like `marks, ok := v[t]`).
+func perCallValue(f *core.Func, e ast.Expr, depth int) bool {
+	info := f.Info()
+	// assigning a local variable itself (no memory reached through it) is always local
+	if v := core.VarOf(info, e); v != nil && depth == 0 {
+		encl := f.Root()
+		if v.Pos() >= encl.Body.Pos() && v.Pos() < encl.Body.End() {
+			return true
+		}
+	}
+	root := e
+	for {
+		switch x := ast.Unparen(root).(type) {
+		case *ast.IndexExpr:
+			root = x.X
+			continue
+		case *ast.SelectorExpr:
+			root = x.X
+			continue
+		case *ast.StarExpr:
+			root = x.X
+			continue
+		}
+		break
+	}
+	switch x := ast.Unparen(root).(type) {
+	case *ast.CompositeLit:
+		return true
+	case *ast.CallExpr:
+		switch core.CalleeName(info, x) {
+		case "builtin.make", "builtin.new", "builtin.append":
+			return true
+		}
+		return false
+	}
+	v := core.VarOf(info, root)
+	if v == nil || depth > 4 {
+		return false
+	}
+	tn := core.NamedTypeName(v.Type())
+	if tn == core.G("pkg/types.visits") || tn == core.G("pkg/types.FuncResults") {
+		return true
+	}
+	encl := f.Root()
+	if !(v.Pos() >= encl.Body.Pos() && v.Pos() < encl.Body.End()) {
+		return false // parameter, receiver or package-level
+	}
+	defs := core.DefsOf(info, encl.Body, v)
+	if len(defs) == 0 {
+		return true // zero-valued local
+	}
+	for _, d := range defs {
+		switch d.Kind {
+		case "incdec", "opassign":
+			continue
+		}
+		if d.Rhs == nil {
+			continue
+		}
+		if d.Index > 0 && d.Kind != "range-value" {
+			continue // the ok of a comma-ok
+		}
+		if _, isBasic := v.Type().Underlying().(*types.Basic); isBasic {
+			continue // scalars are copies
+		}
+		if !perCallValue(f, d.Rhs, depth+1) {
+			return false
+		}
+	}
+	return true
 }
